@@ -119,7 +119,7 @@ type c31State struct {
 	DMVersion    string
 	UploadAlpha  string
 	UploadBeta   string
-	Markers      map[string][2]string // marker -> (bucket,key)
+	Markers      map[string][2]string           // marker -> (bucket,key)
 	Versions     map[string]map[string][]string // bucket -> key -> version ids (oldest first; versioned buckets only)
 }
 
@@ -671,7 +671,6 @@ func c31Build(rg *vkit.Rand, b c31Base, st *c31State) c31Req {
 	return rq
 }
 
-
 // c31Canon is a curated list of well-formed S3 operations against the seeded
 // state, so that every storage method is actually reached under every program
 // (the combinatorial generator mostly produces odd requests).
@@ -905,7 +904,7 @@ type c31Checker struct {
 	mode    c31Mode
 	g       *rig
 	st      *c31State
-	changed string // new baseline after a reported state change
+	changed string            // new baseline after a reported state change
 	delPre  map[string]string // multi-delete: state of the hook-denied keys of the batch before the request
 }
 
